@@ -911,7 +911,7 @@ func isTreeType(t types.Type) bool {
 	if pk == "" {
 		return false
 	}
-	if strings.HasPrefix(pk, modPath+"/languages/") && strings.HasSuffix(n, "Context") {
+	if strings.HasPrefix(pk, modPath+"/languages/") && (strings.HasSuffix(n, "Context") || n == "Tree" || n == "TerminalNode") {
 		return true
 	}
 	if strings.Contains(pk, "antlr") {
